@@ -494,7 +494,18 @@ def limit(R, RID='C10.limit', recv='frame_parser.ClientFrameParser'):
     g = R.cfg(q, recv)
     ru = [(n, c) for n in g.live_nodes() for c in n.calls
           if any(t.kind == 'ctor' and t.cls == 'parser._ReadUntil' for t in R.types.call_targets(c, g.ctx))]
-    need(len(ru) == 1, '%s: expected one read_until' % q)
+    need(len(ru) >= 1, '%s: expected one read_until' % q)
+    # the bound is on the header block as a whole: a block read in several bounded pieces (line by line, in a loop) has no
+    # bound at all - 40 lines of 500 bytes pass a 16 KiB per-line limit
+    inloop = [(n, c_) for (n, c_) in ru if any(fr.kind == 'loop' for fr in n.frames) and
+              not any(o is not n and g.dominates(n, o) for (o, _) in ru)]
+    if len(ru) > 1:
+        need(inloop, '%s: expected one read_until' % q)          # (several reads outside a loop: not analysed)
+        R.ob(RID, 'the header block is read with one bounded read', False,
+             '%s reads the header block in %d read_until pieces (%s): each piece is bounded, the block as a whole is not - an '
+             'oversized answer made of many moderate lines is accepted' % (q, len(ru), ', '.join(U(c_)[:40] for (_, c_) in ru[:3])),
+             func=q, node=ru[0][1], construct='header block read in pieces')
+        return
     c = ru[0][1]
     init = R.func('parser._ReadUntil.__init__')
     mb = arg_of(c, init, 'max_bytes')
